@@ -195,6 +195,8 @@ def tag_fields(t, algo):
          "message": lines_of(t["message"]),
          "signature": lines_of(t["signature"]),
          "blank": t.get("blank", True)}
+    if d["message"] is None and d["blank"]:
+        d["message"] = b""            # blank line present, nothing after it: the empty message
     return d
 
 
@@ -209,7 +211,7 @@ def commit_fields(c, algo):
             "mergetag": [tag_fields(t, algo) for t in c["mergetags"]],
             "extra": [(KEYS[e["k"]], lines_of(e["v"])) for e in c["extra"]],
             "gpgsig": lines_of(c["gpgsig"]),
-            "message": lines_of(c["message"]),
+            "message": lines_of(c["message"]) if (c["message"] or not c.get("blank", True)) else b"",
             "blank": c.get("blank", True)}
 
 
